@@ -1,8 +1,8 @@
 #!/bin/sh
-# usage: tools/verify_seed2.sh <ID>   -- round 2: confirms /tmp/seedout2/<ID>/{A,B}.diff independently and keeps them as
+# usage: tools/verify_seed2.sh <ID>   -- round 2: confirms ${SRC:-/tmp/seedout2}/<ID>/{A,B}.diff independently and keeps them as
 # seeded/<ID>-C and seeded/<ID>-D (patch.diff, demo.py, tests.txt, meta.json)
-id="$1"; src=/tmp/seedout2/$id
-for pair in A:C B:D; do
+id="$1"; src=${SRC:-/tmp/seedout2}/$id
+for pair in ${PAIRS:-A:C B:D}; do
   v=${pair%%:*}; w=${pair##*:}
   wt=/tmp/afkverif-vs2.$$.$v
   git -C /repo worktree add -q --detach "$wt" HEAD || exit 3
@@ -20,10 +20,10 @@ for pair in A:C B:D; do
     /usr/bin/python3 - "$id" "$v" "$w" <<'PY'
 import json, sys, os
 pid, v, w = sys.argv[1:4]
-notes = json.load(open('/tmp/seedout2/%s/notes.json' % pid)).get(v, {})
+notes = json.load(open('%s/%s/notes.json' % (os.environ.get('SRC', '/tmp/seedout2'), pid))).get(v, {})
 d = '/verif/seeded/%s-%s' % (pid, w)
-meta = {"property": pid, "variant": w, "round": 2,
-        "origin": "fresh sub-agent (round 2) given only the property text, a scratch worktree of the repaired /repo head and one-line summaries of the two round-1 changes to avoid (nothing from /verif)",
+meta = {"property": pid, "variant": w, "round": int(__import__("os").environ.get("ROUND", "2")),
+        "origin": "fresh sub-agent (later round) given only the property text, a scratch worktree of the repaired /repo head and one-line summaries of the earlier seeded changes for the property, to avoid them (nothing from /verif)",
         "summary": notes.get("summary", ""), "needs_to_manifest": notes.get("needs_to_manifest", ""),
         "clause_broken": notes.get("clause_broken", ""), "files": notes.get("files", []),
         "confirmed": {"applies_to": "/repo HEAD at confirmation time (scratch worktree)",
